@@ -117,6 +117,7 @@ def real_tables():
     step = np.where(P < 3000, 800.0, 9e4) + 30 * np.sin(P)
     out.append(("synthetic-alpha-step", {"pressure": P, "pseudopressure": m, "alpha": step}))
     out.append(("synthetic-alpha-tiny-pseudopressure", {"pressure": P, "pseudopressure": m * 1e-17, "alpha": step}))
+    out.append(("synthetic-long-with-user-alpha", dict(long_, alpha=step)))   # full PVT columns AND the user's own diffusivity: the user's column serves
     try:
         df = pd.read_csv("/repo/tests/data/pvt_gas.csv").rename(columns={"P": "pressure", "Z-Factor": "z-factor", "Cg": "compressibility", "Viscosity": "viscosity", "Density": "density"})
         out.append(("shipped pvt_gas.csv", df))
@@ -164,6 +165,8 @@ def real_checks(which):
                     if not (np.all(np.diff(ms) > 0) and np.all(np.diff(f) > 0) and abs(float(fp.m_i) - float(fp.m_scaled_func(p_i))) < 1e-14):
                         return {"reproduced": True, "input": inp, "observed": {"min node increment": float(np.diff(ms).min()), "m_i": float(fp.m_i)}, "required": "strictly increasing; m_i == m_scaled_func(p_i)"}
                 if which == "alpha_branch" and "alpha" in keys_before:
+                    if not np.array_equal(np.asarray(fp.pvt_props["alpha"], dtype=float), before["alpha"]):
+                        return {"reproduced": True, "input": inp, "observed": {"alpha column of the wrapper": np.asarray(fp.pvt_props["alpha"], dtype=float)[:3].tolist()}, "required": {"the user's alpha column": before["alpha"][:3].tolist()}}
                     at_node = bool(np.any(P == p_i))
                     mi = float(fp.m_i)
                     if (at_node and abs(mi - 1) > 1e-12) or mi < 1 - 1e-12:
@@ -369,9 +372,11 @@ def build(ctx):
 
     def alpha_branch():
         v = None
-        for kind in KINDS:
-            o = ret_of(run_init(ctx, INIT, "FlowProperties", SHORT, kind))
+        for kind, USER in ((k_, c_) for k_ in KINDS for c_ in (SHORT, LONG + ["alpha"])):   # the short table, and a full PVT table that also carries the user's alpha
+            o = ret_of(run_init(ctx, INIT, "FlowProperties", USER, kind))
             obj, cols = obj_of(o), cols_of(o)
+            if cols["alpha"].get(j) is not col("alpha", j):
+                return with_models(be.Verdict(be.REFUTED, "SMT", witness={"columns": USER, "kind": kind}, detail=f"the table carries the user's alpha column (columns {USER}) but the wrapper's alpha column is {str(cols['alpha'].get(j))[:120]}"), o)
             msf = obj.fields["m_scaled_func"]
             calls = o.heap["ghost"].get("interp_calls", [])
             I = [I_ for (I_, qq) in calls if I_ is not msf and qq is pi]
@@ -380,7 +385,7 @@ def build(ctx):
             I = I[0]
             mi = obj.fields["m_i"]
             idx = [s, tm.add(s, tm.const(1)), J]
-            base = path_h(o, s, J) + table_hyps(SHORT, idx)
+            base = path_h(o, s, J) + table_hyps(USER, idx)
             # both interpolants are over the same pressure column: the same segment and theta serve both
             if I.xf(j) is not col("pressure", j) or msf.xf(j) is not col("pressure", j):
                 return be.Verdict(be.REFUTED, "SMT", witness={}, detail="interpolants are not over the pressure column")
@@ -398,7 +403,7 @@ def build(ctx):
                 return with_models(v, o)
         return with_models(v, o)
 
-    obs.append(Obligation("init.alpha_branch", "user-alpha branch: m_i == 1 when p_i is a table node; otherwise 1 <= m_i <= 1 + (m_{s+1} - m_s)^2 / (4 m_s m_{s+1}) (linear-interpolation error)", alpha_branch, [INIT], "SMT", rp("alpha_branch")))
+    obs.append(Obligation("init.alpha_branch", "a table with a user alpha column (alone, or next to the full PVT columns): the wrapper keeps the user's column; m_i == 1 when p_i is a table node; otherwise 1 <= m_i <= 1 + (m_{s+1} - m_s)^2 / (4 m_s m_{s+1}) (linear-interpolation error)", alpha_branch, [INIT], "SMT", rp("alpha_branch")))
 
     def alpha_nodes(qf, clsname, colset):
         def run():
